@@ -19,6 +19,14 @@ reg('C05', True,
     'states are the intended ones (C07) and floating rounding of j/nd.',
     'clang 14 AST/CFG of the five anchor units; the validity checker is an opaque callback',
     'path-sensitive typestate over clang CFG + linear normal form + queue-schema coverage')
-for _p in ['C01', 'C02', 'C03', 'C04', 'C06', 'C07', 'C08', 'C09', 'C10', 'C11', 'C12', 'C13', 'C14', 'C15', 'C16',
+reg('C11', True,
+    'Decides the per-operation necessary conditions of the heap invariant on every instantiation of BinaryHeap: every '
+    'placement of an element at a slot is followed on all paths by sifts in both directions (or a rebuild), every slot '
+    'store is paired with the handle position store, each removal deletes one element and shrinks the storage by one, '
+    'sift/build index arithmetic and comparison argument order match the binary-heap scheme. Not decided: the global '
+    'heap order over histories as an inductive proof, comparator behaviour.',
+    'clang 14 AST/CFG of the explicit instantiation BinaryHeap<int> (+ every instantiation in the library, thorough tier)',
+    'typestate over clang CFG (pending-restoration automaton), paired-update rule, linear normal form of index arithmetic')
+for _p in ['C01', 'C02', 'C03', 'C04', 'C06', 'C07', 'C08', 'C09', 'C10', 'C12', 'C13', 'C14', 'C15', 'C16',
            'C17', 'C18', 'C19', 'C20']:
     reg(_p, False, '', '', '', PENDING)
